@@ -603,8 +603,8 @@ class Interp:
         """a numpy keyword that changes what the call does must be understood by the model; silently dropping it would be unsound"""
         for k_ in self._SEMANTIC_KW:
             if kwargs.get(k_) is not None and not (k_ == "keepdims" and kwargs[k_] is False):
-                if k_ == "out" and getattr(h, "__qualname__", "").startswith("_ew.<locals>"):
-                    continue  # elementwise unary models store into out
+                if k_ == "out" and getattr(h, "__qualname__", "").startswith(("_ew.<locals>", "_ew2.<locals>")):
+                    continue  # elementwise models store into out
                 if k_ in getattr(h, "__code__", type("x", (), {"co_varnames": ()})).co_varnames[: getattr(getattr(h, "__code__", None), "co_argcount", 0) + getattr(getattr(h, "__code__", None), "co_kwonlyargcount", 0)]:
                     continue  # the model names this keyword explicitly
                 raise Unsupported("keyword %s= of %s is not modelled" % (k_, getattr(fn, "__name__", fn)))
